@@ -351,6 +351,13 @@ theorem fetch_f (t : Tables) (c : Cpu) (r : Regs) (m : Flat) :
     (fetch t c r m).cpu.regs.f = r.f := by
   rw [fetch_flat]; split <;> rfl
 
+theorem next_fetch' (t : Tables) (c : Cpu) (m : Flat) (h : AtFetch c m) :
+    next t c m = { cpu := (fetch t c c.regs m).cpu, bus := (fetch t c c.regs m).bus, halted := false } := by
+  rw [next_fetch t c m h]
+  have := fetch_halted t c c.regs m
+  cases hf : fetch t c c.regs m
+  simp_all
+
 theorem mk_next {M : Type} (n : NextResult M) : n = { cpu := n.cpu, bus := n.bus, halted := n.halted } := rfl
 
 end Tetro.Exec
